@@ -25,10 +25,12 @@ def ViewBox.aspectSlice (v : ViewBox α) (dx dy ax ay : α) : α × α × α × 
   let (vdx0, vdy0) := v.size
   let vbAR := vdx0 / vdy0
   let (vdx, vdy) := if dx / dy < vbAR then (dy * vbAR, dy) else (dx, dx / vbAR)
+  -- the far edges are measured from the target's far edges (so that the target stays covered)
+  let one : α := Arith.ofInt 1
   let minX := (dx - vdx) * ax
-  let maxX := minX + vdx
+  let maxX := dx - (dx - vdx) * (one - ax)
   let minY := (dy - vdy) * ay
-  let maxY := minY + vdy
+  let maxY := dy - (dy - vdy) * (one - ay)
   (minX, minY, maxX, maxY)
 
 end Ivg
